@@ -108,10 +108,19 @@ def _schema_keys(pid, v):
 @scope("F-SCHEMA-SELF-REFERENCE")
 def _schema_selfref(pid, v):
     f = (v["case"].get("facts") or {})
-    return pid in ("C06", "C20") and v["clause"] == "schema-build-raised" and v["outcome"] == "RecursionError" and f.get("self_reference") is True
+    if pid not in ("C06", "C20") or v["clause"] != "schema-build-raised" or f.get("self_reference") is not True:
+        return False
+    return v["outcome"] == "RecursionError" or (v["outcome"] == "TypeError" and f.get("typing_self") is True)
 
 
 @scope("F-SCHEMA-DEFS-NAME-COLLISION")
 def _schema_defs(pid, v):
     f = (v["case"].get("facts") or {})
     return pid == "C06" and v["clause"] == "definitions-shared" and f.get("scenario") in ("same_name_classes", "generic_specialisations")
+
+
+@scope("F-SCHEMA-INIT-FALSE-FIELD")
+def _schema_init_false(pid, v):
+    f = (v["case"].get("facts") or {})
+    return (pid == "C06" and f.get("scenario") == "init_false_field" and v["clause"] == "schema-rejects-serializer-output"
+            and v["outcome"] == "additionalProperties")
